@@ -84,7 +84,11 @@ Proof.
   set (nd := fst (dec_nd N (k - p))) in *. set (dd := snd (dec_nd N (k - p))) in *.
   set (m := fst (round53 nd dd)) in *. set (kk := snd (round53 nd dd)) in *.
   assert (EN : nearest (Fin ng (Z.to_N N) (k - p)) = nearest_q ng nd dd).
-  { unfold nearest, nd, dd, dec_nd. rewrite Z2N.id by lia. destruct (0 <=? k - p)%Z; reflexivity. }
+  { unfold nearest, nd, dd, dec_nd. rewrite Z2N.id by lia.
+    replace (N =? 0)%Z with false by (symmetry; apply Z.eqb_neq; lia).
+    replace (400 <? k - p)%Z with false by (symmetry; apply Z.ltb_ge; lia).
+    replace (k - p + Z.log2 N + 1 <? -400)%Z with false by (symmetry; apply Z.ltb_ge; pose proof (Z.log2_nonneg N); lia).
+    destruct (0 <=? k - p)%Z; reflexivity. }
   rewrite EN, (nearest_q_round53 ng nd dd Pn Pd). fold m kk.
   replace (m =? 0)%Z with false by (symmetry; apply Z.eqb_neq; lia).
   assert (NoOv : (1024 <=? Z.log2 m + kk)%Z = false).
